@@ -112,6 +112,8 @@ def configs(tier, seed):
         out.append({'model': model, 'm': 2, 'n': 1, 'nx': 2, 'ny': 1, 'variant': 'kT', 'table': True, 'group': 'kT-per-point-table:%s' % model, 'timeout_ms': 120000})
         out.append({'model': model, 'm': 1, 'n': 2, 'nx': 1, 'ny': 2, 'variant': 'fint', 'table': True, 'group': 'fint-per-point-table:%s' % model})
         out.append({'model': model, 'm': 2, 'n': 2, 'nx': 2, 'ny': 2, 'variant': 'kT0', 'group': 'undeformed:%s' % model})
+        out.append({'model': model, 'm': 4, 'n': 1, 'nx': 1, 'ny': 1, 'variant': 'fint', 'group': 'fint-gradient-order-4-5:%s' % model})
+        out.append({'model': model, 'm': 1, 'n': 5, 'nx': 1, 'ny': 1, 'variant': 'kT', 'group': 'kT-jacobian-order-4-5:%s' % model, 'timeout_ms': 180000})
         out.append({'model': model, 'm': 2, 'n': 1, 'nx': 1, 'ny': 1, 'variant': 'stencil', 'group': 'stencil:%s' % model, 'timeout_ms': 180000})
         out.append({'model': model, 'm': 2, 'n': 2, 'nx': 1, 'ny': 1, 'variant': 'stencil', 'state': 'membrane', 'group': 'stencil-membrane-state:%s' % model, 'timeout_ms': 180000})
         if not quick:
